@@ -794,6 +794,17 @@ def move_before_loop(source: str) -> str:
             if header_created & node_created_names:
                 continue  # i.e. an assignment to the loop variable
 
+            # If the loop runs zero times, the assignment is never made, which matters if the
+            # variable is read outside of the loop.
+            names_in_loop = set(core.walk(scope, ast.Name))
+            if any(
+                name not in names_in_loop
+                for name in core.walk(
+                    root, ast.Name(id=tuple(node_created_names), ctx=ast.Load)
+                )
+            ):
+                continue
+
             new_node = copy.copy(node)
             new_node.lineno = scope.lineno - 1
             new_node.col_offset = scope.col_offset
